@@ -65,7 +65,7 @@ def topo_worker(cases, lay_by_key, extra):
         for ci, c in enumerate(cases):
             deps = {i + 1: list(d) for i, d in enumerate(c["deps"])}
             order = list(c["input"])
-            for variant in (0, 1):
+            for variant in (0, 1, 2):
                 kinds = CL.assign_kinds(deps, variant)
                 doc, nm = CL.isar_document(deps, order, kinds)
                 sub = os.path.join(work, "c%d_%d" % (ci, variant))
@@ -122,7 +122,8 @@ def c15(tier, replay):
         "spec/TopoSort.tla: abstract requirement + the rotation algorithm, every DAG on <= 4 nodes x every input order "
         "(5 nodes by simulation in the thorough tier); termination refuted on cyclic graphs (vacuity guard)",
         "each (graph, order) is rendered as isar XML twice: all definitions structs (the input order reaches the sort "
-        "unchanged) and mixed kinds (constants, enums, typedefs, structs, unions; isar regroups by kind)",
+        "unchanged), mixed kinds (constants, enums, typedefs, structs, unions; isar regroups by kind) and types only "
+        "with frequent unions (unions of unions, structs of unions, discriminators named by enumerators)",
         "sack front-end not exercised"]
     cases, stats = topo_cases(tier)
     for st in stats:
@@ -132,7 +133,7 @@ def c15(tier, replay):
     seen = set()
     for c in cases:
         deps = {i + 1: list(d) for i, d in enumerate(c["deps"])}
-        for variant in (0, 1):
+        for variant in (0, 1, 2):
             key = json.dumps([sorted(deps.items()), variant])
             if key in seen:
                 continue
@@ -875,6 +876,67 @@ def determinism_worker(cases, wid, extra):
     return res
 
 
+def independent_worker(seeds, wid, extra):
+    """Independent input files that use the SAME type names for different
+    definitions (random environments rendered with names T1..Tn): whatever is
+    generated for a file must not depend on which other files share the run,
+    nor on their order."""
+    from . import gen
+    from .cppwire import cpp_full_accepts
+    res = {"fails": [], "n": 0, "runs": 0, "samples": []}
+    base = tempfile.mkdtemp(prefix="vfind-", dir=extra.get("scratch"))
+    try:
+        for sd in seeds:
+            rnd = random.Random(sd)
+            root = os.path.join(base, "p%d" % sd)
+            os.makedirs(root)
+            texts = {}
+            for name in ("f1", "f2", "f3"):
+                while True:
+                    env = S.Env(gen.gen_env(rnd) if sd % 2 else gen.gen_env_roles(rnd))
+                    if cpp_full_accepts(env):
+                        break
+                texts[name] = env.render()
+                with open(os.path.join(root, name + ".prophy"), "w") as f:
+                    f.write(texts[name])
+
+            def run(order, hashseed, tag):
+                out = os.path.join(root, "o_" + tag)
+                os.makedirs(out)
+                argv = [n + ".prophy" for n in order] + ["--python_out", out, "--cpp_out", out, "--cpp_full_out", out,
+                                                          "--prophy_out", out]
+                rc, text = CL.run_cli(argv, cwd=root, env={"PYTHONHASHSEED": hashseed})
+                res["runs"] += 1
+                return rc, text, _snapshot(out)
+
+            alone = {}
+            basef = {"check": "determinism", "config": {"independent files sharing type names": texts}}
+            ok = True
+            for n in texts:
+                rc, text, snap = run([n], "0", "alone_" + n)
+                if rc != 0:
+                    res["fails"].append(dict(basef, what="compiling %s alone failed: %s" % (n, text[-300:])))
+                    ok = False
+                alone.update(snap)
+            res["n"] += 1
+            if not ok:
+                continue
+            for k, order in enumerate((["f1", "f2", "f3"], ["f3", "f2", "f1"], ["f2", "f1"], ["f2", "f3", "f1"])):
+                rc, text, snap = run(order, str(k), "t%d" % k)
+                if rc != 0:
+                    res["fails"].append(dict(basef, what="compiling %r together failed: %s" % (order, text[-300:])))
+                    continue
+                for name, data in sorted(snap.items()):
+                    if alone.get(name) != data:
+                        res["fails"].append(dict(basef, what="%s differs when its source is compiled together with others "
+                                                 "(order %r) from compiling it alone" % (name, order)))
+                        break
+            shutil.rmtree(root, ignore_errors=True)
+    finally:
+        shutil.rmtree(base, ignore_errors=True)
+    return res
+
+
 def c20(tier, replay):
     rep = Report("C20", tier)
     rep.assumptions = [
@@ -882,7 +944,9 @@ def c20(tier, replay):
         "model-checked behaviour reports no error; ResolutionDeclarative is the design-level form of order independence",
         "each configuration is compiled by `python -m prophyc` subprocesses with all four back-ends: twice identically, "
         "with PYTHONHASHSEED 1, 2 and random, from another working directory with absolute paths, with the command-line "
-        "order permuted, and each input alone; all generated files are compared byte for byte"]
+        "order permuted, and each input alone; all generated files are compared byte for byte",
+        "plus triples of independent random schemas that reuse the same type names for different definitions, compiled "
+        "alone and together in several orders"]
     cases, stats = fileproc_cases()
     for st in stats:
         rep.add_tlc(st)
@@ -906,6 +970,17 @@ def c20(tier, replay):
             rep.violation(f, shadows.match("C20", f))
     for k in range(nt):
         rep.nontrivial(k)
+    # independent files that reuse type names for different definitions
+    nind = 32 if tier == "quick" else 800
+    seeds = [seed() * 100000 + k for k in range(nind)]
+    with ProcessPoolExecutor(max_workers=NCPU) as ex:
+        results = list(ex.map(independent_worker, _chunks(seeds, NCPU), range(NCPU), [{"scratch": scratch_dir("ind")}] * NCPU))
+    for r in results:
+        rep.count(r["runs"])
+        rep.validated(r["n"])
+        rep.cov["independent_file_triples"] = rep.cov.get("independent_file_triples", 0) + r["n"]
+        for f in r["fails"]:
+            rep.violation(f, shadows.match("C20", f))
     rep.cov["configurations_model_checked"] = len(cases)
     rep.cov["configurations_run"] = len(pick)
     rep.cov["rule"] = ("configurations from TLC (spec/FileProc.tla) x {repeat, hash seeds, working directory, "
@@ -925,8 +1000,9 @@ def rule_breakers(base, rnd):
     -> list of (label, defs)"""
     I, M, R = S.Int, S.Mem, S.Ref
     n = len(base)
-    G, D = n + 1, n + 2
-    helpers = [S.StructDef([M("greedy", I(1))]), S.StructDef([M("dyn", I(2))])]
+    G, D, TG, TD, TTD, TF = n + 1, n + 2, n + 3, n + 4, n + 5, n + 6
+    helpers = [S.StructDef([M("greedy", I(1))]), S.StructDef([M("dyn", I(2))]),
+               S.TypedefDef(R(G)), S.TypedefDef(R(D)), S.TypedefDef(R(TD)), S.TypedefDef(S.Flt(4))]
     fixed_types = [I(1), I(4), S.Flt(8)]
     other = rnd.choice(fixed_types)
     out = []
@@ -956,6 +1032,20 @@ def rule_breakers(base, rnd):
     victim("zero fixed array size", st([M("fixed", I(2), 0)]))
     victim("zero array limit", st([M("lim", I(2), 0)]))
     victim("duplicate discriminators", S.UnionDef([{"d": 3, "t": I(1)}, {"d": 3, "t": I(2)}]))
+    # the same rules with the offending type reached through typedefs
+    victim("unlimited struct (typedef) not last", st([M("plain", R(TG)), M("plain", other)]))
+    victim("unlimited struct (typedef) in dynamic array", st([M("dyn", R(TG))]))
+    victim("unlimited struct (typedef) in fixed array", st([M("fixed", R(TG), 2)]))
+    victim("dynamic struct (typedef) in fixed array", st([M("fixed", R(TD), 3)]))
+    victim("dynamic struct (typedef chain) in limited array", st([M("lim", R(TTD), 2)]))
+    victim("optional dynamic struct (typedef)", st([M("opt", R(TD))]))
+    victim("optional dynamic struct (typedef chain)", st([M("opt", R(TTD)), M("plain", other)]))
+    victim("optional unlimited struct (typedef)", st([M("opt", R(TG))]))
+    victim("dynamic union arm (typedef)", S.UnionDef([{"d": 1, "t": I(1)}, {"d": 2, "t": R(TD)}]))
+    victim("dynamic union arm (typedef chain)", S.UnionDef([{"d": 7, "t": R(TTD)}]))
+    victim("unlimited union arm (typedef)", S.UnionDef([{"d": 1, "t": I(4)}, {"d": 2, "t": R(TG)}]))
+    victim("float sizer (typedef)", st([M("plain", R(TF)), M("ext", I(1), 0, 1)]))
+    victim("struct sizer (typedef)", st([M("plain", R(TD)), M("ext", I(1), 0, 1)]))
     return out
 
 
